@@ -175,10 +175,36 @@ class SphinxBuild:
         h = self._handler()
         lg = logging.getLogger("sphinx")
         lg.addHandler(h)
+        start = len(self._wio.getvalue())
         try:
             return {d: self.app.env.get_and_resolve_doctree(d, self.app.builder) for d in docnames}
         finally:
             lg.removeHandler(h)
+            self.resolve_warnings = self._wio.getvalue()[start:]
+
+    _WLINE = re.compile(r"^(?:(?P<loc>.+?): )?(?P<level>WARNING|ERROR|CRITICAL|SEVERE): (?P<msg>.*)$")
+
+    def stream_records(self, text=None):
+        """What the USER sees: the warning stream parsed into records (Sphinx' handler-level filters - suppress_warnings, once - have been applied)."""
+        out = []
+        for raw in (self.warnings if text is None else text).splitlines():
+            l = re.sub(r"\x1b\[[0-9;]*m", "", raw)
+            m = self._WLINE.match(l)
+            if not m:
+                if out and l.strip():
+                    out[-1]["msg"] += "\n" + l
+                continue
+            loc = (m.group("loc") or "").replace(self.src + os.sep, "")
+            lm = re.search(r":(\d+)$", loc)
+            msg = m.group("msg")
+            tm = re.search(r"\[([A-Za-z_]+)\.([A-Za-z_]+)\]\s*$", msg)
+            out.append({"path": loc[: lm.start()] if lm else loc, "line": int(lm.group(1)) if lm else None, "location": loc, "msg": msg, "type": tm.group(1) if tm else None, "subtype": tm.group(2) if tm else None})
+        for r in out:  # the tag may sit at the end of a multi-line message
+            if r["type"] is None:
+                tm = re.search(r"\[([A-Za-z_]+)\.([A-Za-z_]+)\]\s*$", r["msg"])
+                if tm:
+                    r["type"], r["subtype"] = tm.group(1), tm.group(2)
+        return out
 
     def write(self):
         if self._written:
@@ -210,6 +236,7 @@ class SphinxBuild:
 
         self.write()
         status, warning = io.StringIO(), io.StringIO()
+        self._wio = warning
         records = self.records
 
         seen = []
